@@ -229,9 +229,15 @@ func ParsePPSNALUnit(data []byte, spsMap map[uint32]*SPS) (*PPS, error) {
 		if !pps.UniformSpacingFlag {
 			for i := uint(0); i < pps.NumTileColumnsMinus1; i++ {
 				pps.ColumnWidthMinus1 = append(pps.ColumnWidthMinus1, r.ReadExpGolomb())
+				if r.AccError() != nil {
+					break // untrusted count: stop at the end of the data
+				}
 			}
 			for i := uint(0); i < pps.NumTileRowsMinus1; i++ {
 				pps.RowHeightMinus1 = append(pps.RowHeightMinus1, r.ReadExpGolomb())
+				if r.AccError() != nil {
+					break // untrusted count: stop at the end of the data
+				}
 			}
 		}
 		pps.LoopFilterAcrossTilesEnabledFlag = r.ReadFlag()
@@ -337,6 +343,9 @@ func parseRangeExtension(r *bits.EBSPReader, transformSkipEnabled bool) (*RangeE
 			// values shall be in the range of −12 to +12, inclusive
 			ext.CbQpOffsetList = append(ext.CbQpOffsetList, int8(r.ReadSignedGolomb()))
 			ext.CrQpOffsetList = append(ext.CrQpOffsetList, int8(r.ReadSignedGolomb()))
+			if r.AccError() != nil {
+				break // untrusted count: stop at the end of the data
+			}
 		}
 	}
 	ext.Log2SaoOffsetScaleLuma = r.ReadExpGolomb()
@@ -357,7 +366,7 @@ func parseMultilayerExtension(r *bits.EBSPReader) (*MultilayerExtension, error) 
 		ext.ScalingListRefLayerId = uint8(r.Read(6))
 	}
 	ext.NumRefLocOffsets = r.ReadExpGolomb()
-	ext.RefLocOffsets = make(map[uint8]RefLocOffset, int(ext.NumRefLocOffsets))
+	ext.RefLocOffsets = make(map[uint8]RefLocOffset) // keys are 6-bit layer ids; the count is untrusted
 	for i := uint(0); i < ext.NumRefLocOffsets; i++ {
 		ext.RefLocOffsetLayerIds = append(ext.RefLocOffsetLayerIds, uint8(r.Read(6)))
 
@@ -388,6 +397,9 @@ func parseMultilayerExtension(r *bits.EBSPReader) (*MultilayerExtension, error) 
 			off.PhaseVerChromaPlus8 = uint8(r.ReadExpGolomb())
 		}
 		ext.RefLocOffsets[ext.RefLocOffsetLayerIds[i]] = off
+		if r.AccError() != nil {
+			break // untrusted count: stop at the end of the data
+		}
 	}
 	ext.ColourMappingEnabledFlag = r.ReadFlag()
 	if ext.ColourMappingEnabledFlag {
@@ -410,6 +422,9 @@ func parseColourMappingTable(r *bits.EBSPReader) (*ColourMappingTable, error) {
 	cm.NumCmRefLayersMinus1 = uint8(r.ReadExpGolomb())
 	for i := uint8(0); i <= cm.NumCmRefLayersMinus1; i++ {
 		cm.RefLayerId = append(cm.RefLayerId, uint8(r.Read(6)))
+		if r.AccError() != nil || i == 255 {
+			break // untrusted count: stop at the end of the data, and do not wrap the uint8 counter
+		}
 	}
 	cm.OctantDepth = uint8(r.Read(2))
 	cm.YPartNumLog2 = uint8(r.Read(2))
@@ -523,17 +538,27 @@ func parseSccExtension(r *bits.EBSPReader) (*SccExtension, error) {
 				numComps = 3
 				ext.ChromaBitDepthEntryMinus8 = r.ReadExpGolomb()
 			}
+			if ext.LumaBitDepthEntryMinus8 > 8 || ext.ChromaBitDepthEntryMinus8 > 8 {
+				// range 0..8 (7.4.3.3.3); the entry width must not wrap to zero bits
+				return nil, fmt.Errorf("invalid palette entry bit depth")
+			}
 			ext.PalettePredictorInitializer = make([][]uint, numComps)
 			// Fill luma
 			for i := uint(0); i < ext.NumPalettePredictorInitializers; i++ {
 				ext.PalettePredictorInitializer[0] =
 					append(ext.PalettePredictorInitializer[0], r.Read(int(ext.LumaBitDepthEntryMinus8+8)))
+				if r.AccError() != nil {
+					break // untrusted count: stop at the end of the data
+				}
 			}
 			// Fill chroma if any
 			for comp := 1; comp < numComps; comp++ {
 				for i := uint(0); i < ext.NumPalettePredictorInitializers; i++ {
 					ext.PalettePredictorInitializer[comp] =
 						append(ext.PalettePredictorInitializer[comp], r.Read(int(ext.ChromaBitDepthEntryMinus8+8)))
+					if r.AccError() != nil {
+						break // untrusted count: stop at the end of the data
+					}
 				}
 			}
 		}
@@ -565,6 +590,9 @@ func parse3dExtension(r *bits.EBSPReader) (*D3Extension, error) {
 					depthMaxValue := (1 << (ext.BitDepthForDepthLayersMinus8 + 8)) - 1
 					for j := 0; j <= depthMaxValue; j++ {
 						layer.DltValueFlag = append(layer.DltValueFlag, r.ReadFlag())
+						if r.AccError() != nil {
+							break // untrusted count: stop at the end of the data
+						}
 					}
 				} else {
 					var err error
@@ -575,6 +603,9 @@ func parse3dExtension(r *bits.EBSPReader) (*D3Extension, error) {
 				}
 			}
 			ext.DepthLayers = append(ext.DepthLayers, layer)
+			if r.AccError() != nil {
+				break // untrusted count: stop at the end of the data
+			}
 		}
 	}
 
@@ -604,6 +635,9 @@ func parseDeltaDlt(r *bits.EBSPReader, BitDepthForDepthLayers int) (*DeltaDlt, e
 				// length of delta_val_diff_minus_min[ k ] syntax element is Ceil( Log2( max_diff − minDiff + 1 ) ) bits
 				dd.DeltaValDiffMinusMin =
 					append(dd.DeltaValDiffMinusMin, r.Read(bits.CeilLog2(dd.MaxDiff-(dd.MinDiffMinus1+1)+1)))
+				if r.AccError() != nil {
+					break // untrusted count: stop at the end of the data
+				}
 			}
 		}
 	}
